@@ -171,12 +171,15 @@ Fixpoint chain (l : list slot) (Pc : nat) (cs : list caller) : Prop :=
       opens_ok l (cP0 c) (cg c) (cos c) (cF0 c) /\
       vals_below l (cP0 c) (cg c) (cos c) (Pc - 5) /\
       (is_entry (cg c) = true -> cs' <> []) /\
+      (cg c = 0 -> cP0 c = 0 /\ cs' = []) /\
       chain l (cP0 c) cs'
   end.
 
 Definition frame_ok (l : list slot) (Pc Fc f d : nat) (os : list nat) (cs : list caller) : Prop :=
   os_ok d os = true /\ length l = Pc + base f + d /\ opens_ok l Pc f os Fc /\ chain l Pc cs /\
-  vals_below l Pc f os (length l) /\ (is_entry f = true -> cs <> []).
+  vals_below l Pc f os (length l) /\ (is_entry f = true -> cs <> []) /\
+  (* top-level code (function 0) runs at P = 0 with no suspended caller *)
+  (f = 0 -> Pc = 0 /\ cs = []).
 
 (* --- agreement below a bound *)
 
@@ -201,11 +204,11 @@ Proof. intros H Hm i H1 H2. apply H; lia. Qed.
 Lemma chain_agree l l' : forall cs Pc, agree l l' Pc -> chain l Pc cs -> chain l' Pc cs.
 Proof.
   induction cs as [|c cs IH]; intros Pc A H; cbn [chain] in *; auto.
-  destruct H as (H5 & Hh & HPF & HF & H1 & Hc & Hk & Hlen & Hos & Ho & Hv & He & Hch).
+  destruct H as (H5 & Hh & HPF & HF & H1 & Hc & Hk & Hlen & Hos & Ho & Hv & He & Ht & Hch).
   split; [auto|]. split; [eapply hdr_agree; eauto; lia|]. do 7 (split; [auto|]).
   split; [eapply opens_agree; eauto; eapply agree_le; eauto; lia|].
   split; [eapply vals_agree; eauto; eapply agree_le; eauto; lia|].
-  split; [auto|]. apply IH; auto. eapply agree_le; eauto. lia.
+  split; [auto|]. split; [auto|]. apply IH; auto. eapply agree_le; eauto. lia.
 Qed.
 
 (* --- consequences of frame_ok *)
@@ -223,7 +226,7 @@ Qed.
 Lemma vals_aboveF l Pc Fc f d os cs : frame_ok l Pc Fc f d os cs ->
   forall i, Fc <= i -> i < length l -> nth_error l i = Some SVal.
 Proof.
-  intros (Hos & Hlen & Ho & _ & Hv & _) i H1 H2.
+  intros (Hos & Hlen & Ho & _ & Hv & _ & _) i H1 H2.
   pose proof (opens_P_le_F _ _ _ _ _ Ho) as HPF.
   destruct (Hv i ltac:(lia) H2) as [(o' & Hin & Ha & Hb)|E]; [|exact E].
   exfalso. destruct os as [|o os']; [destruct Hin|].
@@ -241,7 +244,7 @@ Qed.
 Lemma read_ok_chk l Pc Fc f d os cs k :
   frame_ok l Pc Fc f d os cs -> read_chk metas f d os k = true -> read_ok l Pc k = true.
 Proof.
-  intros (Hos & Hlen & Ho & _ & Hv & _) H. unfold read_chk in H. unfold read_ok.
+  intros (Hos & Hlen & Ho & _ & Hv & _ & _) H. unfold read_chk in H. unfold read_ok.
   apply andb_true_iff in H. destruct H as [H1 H2]. apply Nat.ltb_lt in H1.
   apply andb_true_iff. split; [apply Nat.ltb_lt; lia|].
   destruct (Hv (length l - 1 - k) ltac:(lia) ltac:(lia)) as [(o & Hin & Ha & Hb)|E]; [|now rewrite E].
@@ -259,10 +262,10 @@ Lemma frame_repl l Pc Fc f d os cs n x d' :
   frame_ok (firstn n l ++ x) Pc Fc f d' os cs.
 Proof.
   intros HF Hn1 Hn2 Hx Hd'. pose proof (frame_P_le_F _ _ _ _ _ _ _ HF) as HPF.
-  destruct HF as (Hos & Hlen & Ho & Hch & Hv & He).
+  destruct HF as (Hos & Hlen & Ho & Hch & Hv & He & Ht).
   assert (Hl' : length (firstn n l ++ x) = n + length x).
   { rewrite app_length, firstn_length. lia. }
-  unfold frame_ok. split; [|split; [|split; [|split; [|split]]]]; auto.
+  unfold frame_ok. split; [|split; [|split; [|split; [|split; [|split]]]]]; auto.
   - destruct os as [|o os']; [reflexivity|]. cbn [opens_ok os_ok] in *.
     destruct Ho as (HFc & _). apply andb_true_iff in Hos. destruct Hos as [_ Hos].
     apply andb_true_iff. split; auto. apply Nat.leb_le. lia.
@@ -291,8 +294,8 @@ Lemma frame_mark l Pc Fc f d os cs r :
 Proof.
   intros HF Hr Hc Hk. pose proof (frame_P_le_F _ _ _ _ _ _ _ HF) as HPF.
   pose proof (frame_F_le _ _ _ _ _ _ _ HF) as HFle.
-  destruct HF as (Hos & Hlen & Ho & Hch & Hv & He).
-  unfold frame_ok. split; [|split; [|split; [|split; [|split]]]]; auto.
+  destruct HF as (Hos & Hlen & Ho & Hch & Hv & He & Ht).
+  unfold frame_ok. split; [|split; [|split; [|split; [|split; [|split]]]]]; auto.
   - cbn [os_ok]. apply andb_true_iff. split; auto. apply Nat.leb_le. lia.
   - rewrite app_length. cbn. lia.
   - cbn [opens_ok]. split; [lia|]. exists Fc, r.
@@ -309,19 +312,20 @@ Qed.
 (* CALL out of an open frame: the innermost open header becomes the caller record *)
 Lemma frame_call_open l Pc Fc f d o os' cs g :
   frame_ok l Pc Fc f d (o :: os') cs -> 1 <= avail d (o :: os') -> length l - 1 - Fc = np g ->
+  g <> 0 ->
   exists c, frame_ok (firstn (length l - 1) l) Fc Fc g (np g - base g) [] (c :: cs).
 Proof.
-  intros HF Hav Har. pose proof (frame_F_le _ _ _ _ _ _ _ HF) as HFle.
+  intros HF Hav Har Hg0. pose proof (frame_F_le _ _ _ _ _ _ _ HF) as HFle.
   pose proof (vals_aboveF _ _ _ _ _ _ _ HF) as Htop.
   pose proof (base_le_np g) as Hbg.
-  destruct HF as (Hos & Hlen & Ho & Hch & Hv & He).
+  destruct HF as (Hos & Hlen & Ho & Hch & Hv & He & Ht).
   cbn [opens_ok] in Ho. destruct Ho as (HFc & Fp & r & Hh & Hle & H1 & Hc & Hk & Ho').
   cbn [os_ok] in Hos. apply andb_true_iff in Hos. destruct Hos as [Hod Hos]. apply Nat.leb_le in Hod.
   cbn [avail] in Hav, HFle.
   pose proof (opens_P_le_F _ _ _ _ _ Ho') as HPFp.
   assert (A : agree l (firstn (length l - 1) l) Fc) by (apply agree_firstn; lia).
   exists {| cP0 := Pc; cF0 := Fp; cr := r; cg := f; cd := S o; cos := os' |}.
-  unfold frame_ok. split; [|split; [|split; [|split; [|split]]]].
+  unfold frame_ok. split; [|split; [|split; [|split; [|split; [|split]]]]].
   - reflexivity.
   - rewrite firstn_length. lia.
   - reflexivity.
@@ -334,24 +338,27 @@ Proof.
     { intros i Hi1 Hi2. destruct (Hv i Hi1 ltac:(lia)) as [(o' & Hin & Ha & Hb)|E].
       - destruct Hin as [<-|Hin]; [lia|]. left. exists o'. auto.
       - right. rewrite <- A by lia. exact E. }
-    split; [auto|]. eapply chain_agree; eauto. eapply agree_le; eauto. lia.
+    split; [auto|]. split; [auto|]. eapply chain_agree; eauto. eapply agree_le; eauto. lia.
   - rewrite firstn_length. intros i Hi1 Hi2. right. rewrite nth_firstn by lia. apply Htop; lia.
   - discriminate.
+  - intros E. now elim Hg0.
 Qed.
 
 (* CALL with no open frame: tail call re-using the frame *)
 Lemma frame_call_tail l Pc Fc f d cs g :
   frame_ok l Pc Fc f d [] cs -> is_entry f = true -> 1 <= d -> length l - 1 - Fc = np g ->
+  g <> 0 ->
   frame_ok (firstn (length l - 1) l) Fc Fc g (np g - base g) [] cs.
 Proof.
-  intros HF Hf Hd Har. pose proof (vals_aboveF _ _ _ _ _ _ _ HF) as Htop.
+  intros HF Hf Hd Har Hg0. pose proof (vals_aboveF _ _ _ _ _ _ _ HF) as Htop.
   pose proof (base_le_np g) as Hbg.
-  destruct HF as (Hos & Hlen & Ho & Hch & Hv & He). cbn [opens_ok] in Ho. subst Fc.
-  unfold frame_ok. split; [|split; [|split; [|split; [|split]]]]; auto.
+  destruct HF as (Hos & Hlen & Ho & Hch & Hv & He & Ht). cbn [opens_ok] in Ho. subst Fc.
+  unfold frame_ok. split; [|split; [|split; [|split; [|split; [|split]]]]]; auto.
   - rewrite firstn_length. lia.
   - reflexivity.
   - eapply chain_agree; eauto. apply agree_firstn. lia.
   - rewrite firstn_length. intros i Hi1 Hi2. right. rewrite nth_firstn by lia. apply Htop; lia.
+  - intros E. now elim Hg0.
 Qed.
 
 (* return into the caller recorded below Pc *)
@@ -360,10 +367,10 @@ Lemma chain_ret l Pc c cs' :
   frame_ok (firstn (Pc - 5) l ++ [SVal]) (cP0 c) (cF0 c) (cg c) (cd c) (cos c) cs'.
 Proof.
   intros H HP. cbn [chain] in H.
-  destruct H as (H5 & Hh & HPF & HF & H1 & Hc & Hk & Hlen & Hos & Ho & Hv & He & Hch).
+  destruct H as (H5 & Hh & HPF & HF & H1 & Hc & Hk & Hlen & Hos & Ho & Hv & He & Ht & Hch).
   assert (Hl' : length (firstn (Pc - 5) l ++ [SVal]) = Pc - 5 + 1).
   { rewrite app_length, firstn_length. cbn. lia. }
-  unfold frame_ok. split; [|split; [|split; [|split; [|split]]]]; auto.
+  unfold frame_ok. split; [|split; [|split; [|split; [|split; [|split]]]]]; auto.
   - lia.
   - eapply opens_agree; eauto. apply agree_repl; lia.
   - eapply chain_agree; eauto. apply agree_repl; lia.
@@ -381,7 +388,7 @@ Lemma frame_pop_open l Pc Fc f d o os' cs :
     frame_ok (firstn (Fc - 5) l ++ [SVal]) Pc Fprev f (S o) os' cs.
 Proof.
   intros HF. pose proof (frame_F_le _ _ _ _ _ _ _ HF) as HFle.
-  destruct HF as (Hos & Hlen & Ho & Hch & Hv & He).
+  destruct HF as (Hos & Hlen & Ho & Hch & Hv & He & Ht).
   cbn [opens_ok] in Ho. destruct Ho as (HFc & Fp & r & Hh & Hle & H1 & Hc & Hk & Ho').
   cbn [os_ok] in Hos. apply andb_true_iff in Hos. destruct Hos as [Hod Hos]. apply Nat.leb_le in Hod.
   pose proof (opens_P_le_F _ _ _ _ _ Ho') as HPFp.
@@ -389,7 +396,7 @@ Proof.
   split; [auto|]. split; [auto|].
   assert (Hl' : length (firstn (Fc - 5) l ++ [SVal]) = Fc - 5 + 1).
   { rewrite app_length, firstn_length. cbn. lia. }
-  unfold frame_ok. split; [|split; [|split; [|split; [|split]]]]; auto.
+  unfold frame_ok. split; [|split; [|split; [|split; [|split; [|split]]]]]; auto.
   - eapply os_ok_mono; eauto.
   - lia.
   - eapply opens_agree; eauto. apply agree_repl; lia.
@@ -406,8 +413,8 @@ Qed.
 Lemma frame_clear l Pc Fc f d os cs :
   frame_ok l Pc Fc f d os cs -> frame_ok (firstn (Pc + base f) l) Pc Pc f 0 [] cs.
 Proof.
-  intros HF. destruct HF as (Hos & Hlen & Ho & Hch & Hv & He).
-  unfold frame_ok. split; [|split; [|split; [|split; [|split]]]]; auto.
+  intros HF. destruct HF as (Hos & Hlen & Ho & Hch & Hv & He & Ht).
+  unfold frame_ok. split; [|split; [|split; [|split; [|split; [|split]]]]]; auto.
   - rewrite firstn_length. lia.
   - reflexivity.
   - eapply chain_agree; eauto. apply agree_firstn. lia.
